@@ -312,9 +312,9 @@ finding("C06-let-sort-not-applied-to-windows", "C06", ["C03", "C01", "C04", "C07
  "a pipeline prefix that ends with a sort in effect is named with let / into and the continuation uses a window function (rank, row_number, lag, running sum ...)",
  "`from t2 | select {id, f, x} | sort {-x, -id} | derive {c1 = (rank id)}` ranks in the sort order (`RANK() OVER (ORDER BY x DESC, id DESC)`); after `... | sort {-x, -id} | into z` + `from z | derive {c1 = (rank id)}` the window has no ORDER BY (`RANK() OVER ()`, every row gets rank 1) although the final ORDER BY is still propagated: the sort of a let-table is carried to the end of the query but not to window functions.",
  None)
-finding("C06-sorted-let-aggregate-key-recomputed", "C06", [],
- "a pipeline prefix that ends with a sort in effect on a column produced by `aggregate` (inside or outside a group) is named with let / into, and the continuation no longer selects that column",
- "`from t2 | select {id} | group {id} (aggregate {c0 = min 25, c1 = count 5}) | sort {id, c1} | filter .. | select {c2 = 'ab', c0}`: after naming the prefix up to the sort `zlet0`, the reader is compiled as `table_0 AS (SELECT 'ab' AS c2, c0, id, COUNT(*) AS c1 FROM zlet0)`: the sort key is not read from the CTE but re-evaluated as an aggregate in the outer SELECT, which turns it into an aggregate query (one row of NULLs instead of the filtered rows). The inline form carries the key as `_expr_0`.",
+finding("C06-sorted-let-computed-key-recomputed", "C06", [],
+ "a pipeline prefix that ends with a sort in effect on a computed column (a derive / select expression or the result of `aggregate`) is named with let / into, and the continuation no longer selects that column (join, group, select)",
+ "`.. | group {id} (aggregate {c0 = min 25, c1 = count 5}) | sort {id, c1} | filter .. | select {c2 = 'ab', c0}`: after naming the prefix up to the sort `zlet0`, the reader is compiled as `table_0 AS (SELECT 'ab' AS c2, c0, id, COUNT(*) AS c1 FROM zlet0)`: the sort key is not read from the CTE but re-evaluated in the outer SELECT - an aggregate turns it into an aggregate query (one row of NULLs), a scalar expression (`c3 = id % 1`, `sort {c3}`) is emitted as `id % 1 AS c3 FROM zlet1` where `id` does not exist (no such column). The inline form carries the key as `_expr_0`.",
  None)
 finding("C07-loop-after-sort-arity", "C07", ["C05"],
  "a `loop` whose input pipeline has a sort in effect: the emitted WITH RECURSIVE has a UNION ALL between different arities",
@@ -342,7 +342,7 @@ finding("C08-nul-character", "C08", [],
  None)
 
 k = json.load(open(os.path.join(V, "known_findings.json")))
-REMOVED = {"C11-column-order-hash-dependent", "C11-error-text-hash-dependent", "C02-double-negation"}  # repaired by a fix: commit (see "fixed")
+REMOVED = {"C11-column-order-hash-dependent", "C11-error-text-hash-dependent", "C02-double-negation", "C06-sorted-let-aggregate-key-recomputed"}  # repaired by a fix: commit (see "fixed")
 keep = [f for f in k["findings"] if f["id"] not in {x["id"] for x in FINDINGS} and f["id"] not in REMOVED]
 k["findings"] = keep + FINDINGS
 json.dump(k, open(os.path.join(V, "known_findings.json"), "w"), indent=1, ensure_ascii=False)
